@@ -4,8 +4,8 @@
    they are leaves of the parse tree, the parse tree's yield is the token sequence
    (soundness of the validated front-end tables), and the tokenizer strips dollars. *)
 From Coq Require Import List Arith Lia Bool.
-From Kiki Require Import Base.Ord Base.Chars Data DataProofs Lex.Model Lex.Dollar LR.Driver LR.Grammar LR.Validate LR.ValidateProofs
-  Front.KikiGrammar Front.Cst2Ast Front.Parse Front.KikiValid Ast.Validate Ast.WF Ast.ValidateProofs Ast.VWF Pipeline.
+From Kiki Require Import Base.Ord Base.Chars Data DataProofs Np Lex.Model Lex.NoPanic Lex.Dollar Lex.Spans LR.Driver LR.Grammar LR.Inv LR.Sound LR.Validate LR.ValidateProofs
+  Front.KikiGrammar Front.Cst2Ast Front.Parse Front.KikiValid Front.CstTotal Ast.Validate Ast.WF Ast.ValidateProofs Ast.VWF Ast.NoPanic Pipeline.
 From Kiki Require Gen.KikiAnn.
 Import ListNotations.
 Open Scope nat_scope.
@@ -109,4 +109,31 @@ Theorem front_end_VWF src v : front_end src = Ok v -> VWF v.
 Proof.
   unfold front_end. intros H. apply bind_ok in H as (tokens & Htok & H). apply bind_ok in H as (ast & Hast & H).
   apply (validate_ast_VWF ast v H). eapply front_parse_dollar_free; eauto.
+Qed.
+
+(* ---------- C07: the front end never panics ---------- *)
+
+Theorem np_front_parse fuel src tokens : tokenize src = Ok tokens -> np (front_parse fuel src tokens).
+Proof.
+  intros Htok. unfold front_parse.
+  pose proof (validate_Inv2 kiki_ptable Gen.KikiAnn.kiki_ann Gen.KikiAnn.kiki_ft kiki_tables_valid) as H2.
+  destruct (parse token_kind kiki_ptable fuel tokens) as [t|tok|site|] eqn:Ep.
+  - destruct (sound token_kind kiki_ptable _ H2 fuel tokens t (all_tokens_bounded tokens) Ep) as (Hwf & _).
+    apply np_unwrap. apply a_file_total, Hwf.
+  - destruct (reject_is_input_token token_kind kiki_ptable _ H2 fuel tokens tok (all_tokens_bounded tokens) Ep)
+      as (consumed & rest & Hw & Htk).
+    apply np_bind; [|intros; apply np_err]. unfold unexpected_to_err. destruct tok as [k|]; [|apply np_ok].
+    assert (Hin : In k tokens).
+    { rewrite Hw. apply in_or_app. right. destruct rest as [|k' rest']; [discriminate|]. cbn in Htk. injection Htk as ->. left. reflexivity. }
+    destruct (tok_span_slice src k (tokenize_spans src tokens Htok k Hin)) as (s & mid & Hs & Hsl).
+    rewrite Hs. cbn [bind]. rewrite Hsl. cbn. apply np_ok.
+  - exfalso. apply (safe token_kind kiki_ptable _ H2 fuel tokens site (all_tokens_bounded tokens) Ep).
+  - apply np_oof.
+Qed.
+
+Theorem np_front_end src : np (front_end src).
+Proof.
+  unfold front_end. apply np_bind.
+  - intros site. apply (tokenize_never_panics src site).
+  - intros tokens Htok. apply np_bind; [apply np_front_parse, Htok|]. intros ast _. apply np_validate_ast.
 Qed.
